@@ -36,6 +36,8 @@ def full_cfg(cfg: dict) -> dict:
     c["lim"] = {k: -1 for k in ALL_CLASSES} | dict(cfg["lim"])
     c["strat"] = list(cfg["strat"])
     c["legacy"] = list(cfg.get("legacy", []))
+    c.setdefault("hooks", False)
+    c.setdefault("bW", 100000)
     return c
 
 
@@ -146,6 +148,7 @@ def random_scenario(rng: random.Random, focus: str) -> tuple[dict, list[dict]]:
         "rc": rng.random() < 0.6,
         "bsleep": rng.random() < 0.4,
         "opname": rng.random() < 0.7,
+        "hooks": rng.random() < 0.3,
     }
     n_runs = rng.choice([1, 1, 2, 3])
     mode = rng.choice(["call", "exec"])
